@@ -354,10 +354,10 @@ Ltac nown_facts :=
     end
   end.
 Ltac side :=
-  gsimp;
-  first [ reflexivity | assumption
-        | solve [unfold shl; cbn [hand at_ holdsS nown holdsX holdsL tmof bq_task cont after_drain body_done]; nown_facts; lia]
-        | solve [cbn [holdsX holdsL tmof bq_task cont after_drain body_done]; repeat match goal with |- context [match ?x with _ => _ end] => destruct x end; reflexivity]
+  gsimp; unfold after_drain, body_done; unfold cont;
+  first [ reflexivity | eassumption
+        | solve [unfold shl; cbn [hand at_ holdsS nown holdsX holdsL tmof bq_task]; nown_facts; lia]
+        | solve [repeat match goal with |- context [match ?x with _ => _ end] => destruct x end; reflexivity]
         | solve [fold (shcap _); assumption] ].
 
 Lemma Inv1_init m th progs : Inv1 (gl (init m th progs)) (thr (init m th progs)).
@@ -368,14 +368,44 @@ Proof.
   assert (Q : forall u, pcof (map (fun p => Loc p Idle [] []) progs) u = Idle /\
                         hand (locof (map (fun p => Loc p Idle [] []) progs) u) = []).
   { intros u. unfold pcof. destruct (P u) as [E|[p E]]; rewrite E; auto. }
+  assert (S0 : forall u, shl (locof (map (fun p => Loc p Idle [] []) progs) u) = O).
+  { intros u. unfold shl. destruct (Q u) as [E1 E2]. unfold pcof in E1. rewrite E1, E2. reflexivity. }
   unfold init; cbn [gl thr]. constructor.
-  - constructor; cbn; intros; try discriminate; try (rewrite (proj1 (Q _)) in *; discriminate).
-    + symmetry. apply sum_all_zero. intros u. unfold shl. destruct (Q u) as [E1 E2]. unfold pcof in E1. rewrite E1, E2. reflexivity.
-    + exfalso. unfold shl in *. destruct (Q u) as [E1 E2]. unfold pcof in E1. rewrite E1, E2 in *. cbn in *. lia.
-  - constructor; cbn; intros; try discriminate. rewrite (proj1 (Q _)) in *. discriminate.
-  - constructor; cbn; intros; try discriminate. rewrite (proj1 (Q _)) in *. discriminate.
+  - constructor; cbn.
+    + intros u H. rewrite (proj1 (Q u)) in H. discriminate.
+    + discriminate.
+    + intros _. symmetry. apply sum_all_zero. exact S0.
+    + reflexivity.
+    + intros _ u H. rewrite S0 in H. lia.
+  - constructor; cbn; [|discriminate]. intros u H. rewrite (proj1 (Q u)) in H. discriminate.
+  - constructor; cbn; [|discriminate]. intros u k H. rewrite (proj1 (Q u)) in H. discriminate.
   - intros u. destruct (Q u) as [E1 E2]. unfold pcof in E1. split; intros; rewrite ?E1, ?E2 in *; discriminate.
 Qed.
+
+Ltac solveX HX Hl :=
+  first
+  [ solve [eapply (XK_same _ _ _ _ _ _ HX Hl); side]
+  | solve [eapply (XK_acqX _ _ _ _ _ _ HX Hl); side]
+  | solve [eapply (XK_relX _ _ _ _ _ _ HX Hl); side]
+  | solve [eapply (XK_acqS _ _ _ _ _ _ HX Hl); side]
+  | solve [eapply (XK_relS _ _ _ _ _ _ HX Hl); side]
+  | solve [eapply (XK_acqP _ _ _ _ _ _ HX Hl); side]
+  | solve [eapply (XK_relP _ _ _ _ _ _ HX Hl); side] ].
+Ltac solveL HL Hl :=
+  first
+  [ solve [eapply (LK_same _ _ _ _ _ _ Hl HL); side]
+  | solve [eapply (LK_acq _ _ _ _ _ _ Hl HL); side]
+  | solve [eapply (LK_rel _ _ _ _ _ _ Hl HL); side] ].
+Ltac solveT HT Hl :=
+  first
+  [ solve [eapply (TK_same _ _ _ _ _ _ Hl HT); side]
+  | solve [eapply (TK_acq _ _ _ _ _ _ Hl _ HT); side]
+  | solve [eapply (TK_rel _ _ _ _ _ _ Hl _ HT); side] ].
+Ltac norm_free_s :=
+  repeat match goal with
+  | H : free_s _ = true |- _ => apply free_s_true in H
+  | H : free_s _ = false |- _ => apply free_s_false in H
+  end.
 
 Lemma Inv1_step g ls t c l g' l' es :
   Inv1 g ls -> nth_error ls t = Some l -> tstep t c g l = Some (g', l', es) -> Inv1 g' (upd ls t l').
@@ -384,6 +414,154 @@ Proof.
   pose proof (HH t) as [HH1 HH2]. rewrite (locof_at _ _ _ Hl) in HH1, HH2. cbn [at_ hand] in HH1, HH2.
   step_cases Hs.
   all: try (specialize (HH1 _ eq_refl)); try (specialize (HH2 eq_refl)).
-  all: constructor.
-  all: idtac.
-Abort.
+  all: norm_free_s.
+  all: constructor; [solveX HX Hl | solveL HL Hl | solveT HT Hl | ].
+  all: apply (HK_step _ _ _ _ Hl HH); split; cbn [at_ hand rdh hlookup nown]; unfold after_drain, body_done; unfold cont; intros;
+       repeat match goal with H : context [match ?x with _ => _ end] |- _ => destruct x end;
+       try discriminate; nown_facts; try lia; try congruence.
+Qed.
+
+(* ================================================================== *)
+(* Layer 2: the payload windows                                         *)
+(* ================================================================== *)
+Definition rdw (l : loc) : nat := if rdopen (at_ l) then 1%nat else O.
+
+Lemma wropen_holdsX p : wropen p = true -> holdsX p = true.
+Proof. destruct p; cbn; congruence. Qed.
+Lemma inbody_holdsX p : inbody p = true -> holdsX p = true.
+Proof. destruct p; cbn; congruence. Qed.
+
+(* while a thread is inside an exclusive section nobody holds a shared lock and nobody else is in such a section *)
+Lemma excl_facts g ls a : Inv1 g ls -> holdsX (pcof ls a) = true ->
+  forall u, shl (locof ls u) = O /\ (holdsX (pcof ls u) = true -> u = a).
+Proof.
+  intros [HX _ _ _] Ha u. pose proof (X1 _ _ HX a Ha) as Ho. split.
+  - destruct (shcap g) eqn:Hc.
+    + assert (nsh g = O) as Hn by (apply (X4 _ _ HX Hc); congruence).
+      rewrite (X3 _ _ HX Hc) in Hn. apply (sum_zero shl ls eq_refl Hn).
+    + destruct (shl (locof ls u)) eqn:E; [reflexivity|].
+      destruct (X5 _ _ HX Hc u) as [E1 [E2 _]]; [lia|]. assert (u = a) by congruence. subst. congruence.
+  - intros Hu. pose proof (X1 _ _ HX u Hu). congruence.
+Qed.
+
+Lemma rd_holds ls u : HInv ls -> rdopen (pcof ls u) = true ->
+  holdsX (pcof ls u) = true \/ (1 <= shl (locof ls u))%nat.
+Proof.
+  intros HH Hr. destruct (HH u) as [_ H2]. unfold shl, pcof in *.
+  destruct (at_ (locof ls u)); try discriminate; cbn in *; auto; right; try lia.
+Qed.
+
+Record WInv (g : glob) (ls : list loc) : Prop := {
+  W1 : rdrs g = list_sum (map rdw ls);
+  W2 : forall u, wropen (pcof ls u) = true -> dirty g = true;
+  W3 : dirty g = true -> exists a, wropen (pcof ls a) = true;
+  W4 : faulted g = false
+}.
+
+Section WKinds.
+  Variables (g g' : glob) (ls : list loc) (t : nat) (l l' : loc).
+  Hypothesis H1 : Inv1 g ls.
+  Hypothesis HW : WInv g ls.
+  Hypothesis Hl : nth_error ls t = Some l.
+  Let Hp := pcof_at _ _ _ Hl.
+  Let Hlo := locof_at _ _ _ Hl.
+  Ltac xpt u := intros u; ptw Hl; destruct (Nat.eqb_spec u t) as [->|Hne].
+
+  Lemma WK_same : rdrs g' = rdrs g -> dirty g' = dirty g -> faulted g' = faulted g ->
+    rdopen (at_ l') = rdopen (at_ l) -> wropen (at_ l') = wropen (at_ l) -> WInv g' (upd ls t l').
+  Proof.
+    intros Hr Hd Hf Ho Hw. destruct HW as [A1 A2 A3 A4]. constructor; rewrite ?Hr, ?Hd, ?Hf; auto.
+    - pose proof (sum_upd rdw ls t l l' Hl) as Hs. unfold rdw in Hs at 2 4. rewrite Ho in Hs. lia.
+    - xpt u; [rewrite Hw, <- Hp|]; auto.
+    - intros D. destruct (A3 D) as [a Ha]. exists a. ptw Hl. destruct (Nat.eqb_spec a t) as [->|Hne]; [rewrite Hw, <- Hp|]; auto.
+  Qed.
+
+  (* a thread that holds the outer mutex in some mode sees a clean payload *)
+  Lemma clean_for_holder : (holdsX (at_ l) = true /\ wropen (at_ l) = false) \/ (1 <= shl l)%nat -> dirty g = false.
+  Proof.
+    intros Hh. destruct (dirty g) eqn:D; [exfalso|reflexivity].
+    destruct (W3 _ _ HW D) as [a Ha]. pose proof (wropen_holdsX _ Ha) as Hxa.
+    destruct (excl_facts _ _ _ H1 Hxa t) as [E1 E2]. rewrite Hp, Hlo in *.
+    destruct Hh as [[Hx Hw]|Hs]; [|lia]. specialize (E2 Hx). subst. rewrite Hp in Ha. congruence.
+  Qed.
+
+  Lemma WK_rdb : (holdsX (at_ l) = true /\ wropen (at_ l) = false) \/ (1 <= shl l)%nat ->
+    rdrs g' = S (rdrs g) -> dirty g' = dirty g -> faulted g' = faulted g || dirty g ->
+    rdopen (at_ l) = false -> rdopen (at_ l') = true -> wropen (at_ l) = false -> wropen (at_ l') = false ->
+    WInv g' (upd ls t l').
+  Proof.
+    intros Hh Hr Hd Hf Ho Ho' Hw Hw'. pose proof (clean_for_holder Hh) as Hc.
+    destruct HW as [A1 A2 A3 A4]. constructor; rewrite ?Hr, ?Hd, ?Hf, ?Hc, ?A4; auto.
+    - pose proof (sum_upd rdw ls t l l' Hl) as Hs. unfold rdw in Hs at 2 4. rewrite Ho, Ho' in Hs. lia.
+    - xpt u; [congruence|]. intros Hu. specialize (A2 u Hu). congruence.
+    - discriminate.
+  Qed.
+  Lemma WK_rde : (holdsX (at_ l) = true /\ wropen (at_ l) = false) \/ (1 <= shl l)%nat ->
+    rdrs g' = pred (rdrs g) -> dirty g' = dirty g -> faulted g' = faulted g || dirty g ->
+    rdopen (at_ l) = true -> rdopen (at_ l') = false -> wropen (at_ l) = false -> wropen (at_ l') = false ->
+    WInv g' (upd ls t l').
+  Proof.
+    intros Hh Hr Hd Hf Ho Ho' Hw Hw'. pose proof (clean_for_holder Hh) as Hc.
+    destruct HW as [A1 A2 A3 A4]. constructor; rewrite ?Hr, ?Hd, ?Hf, ?Hc, ?A4; auto.
+    - pose proof (sum_upd rdw ls t l l' Hl) as Hs. unfold rdw in Hs at 2 4. rewrite Ho, Ho' in Hs. lia.
+    - xpt u; [congruence|]. intros Hu. specialize (A2 u Hu). congruence.
+    - discriminate.
+  Qed.
+  Lemma WK_wrb : holdsX (at_ l) = true -> wropen (at_ l) = false -> rdopen (at_ l) = false ->
+    rdrs g' = rdrs g -> dirty g' = true -> faulted g' = faulted g || negb (Nat.eqb (rdrs g) 0) || dirty g ->
+    rdopen (at_ l') = false -> wropen (at_ l') = true -> WInv g' (upd ls t l').
+  Proof.
+    intros Hx Hw Ho Hr Hd Hf Ho' Hw'. pose proof (clean_for_holder (or_introl (conj Hx Hw))) as Hc.
+    destruct H1 as [HX HL HT HH]. destruct HW as [A1 A2 A3 A4].
+    assert (rdrs g = O) as Hz.
+    { rewrite A1. apply sum_all_zero. intros u. unfold rdw. destruct (rdopen (at_ (locof ls u))) eqn:E; [exfalso|reflexivity].
+      rewrite <- Hp in Hx. destruct (excl_facts _ _ _ H1 Hx u) as [E1 E2].
+      destruct (rd_holds ls u HH E) as [Hu|Hu]; [|lia]. specialize (E2 Hu). subst. rewrite Hlo in E. congruence. }
+    constructor; rewrite ?Hr, ?Hd, ?Hf, ?Hc, ?A4, ?Hz; auto.
+    - pose proof (sum_upd rdw ls t l l' Hl) as Hs. unfold rdw in Hs at 2 4. rewrite Ho, Ho' in Hs. lia.
+    - intros _. exists t. ptw Hl. rewrite Nat.eqb_refl. exact Hw'.
+  Qed.
+  Lemma WK_wre : wropen (at_ l) = true -> wropen (at_ l') = false -> rdopen (at_ l) = false -> rdopen (at_ l') = false ->
+    rdrs g' = rdrs g -> dirty g' = false -> faulted g' = faulted g -> WInv g' (upd ls t l').
+  Proof.
+    intros Hw Hw' Ho Ho' Hr Hd Hf. destruct HW as [A1 A2 A3 A4]. constructor; rewrite ?Hr, ?Hd, ?Hf; auto.
+    - pose proof (sum_upd rdw ls t l l' Hl) as Hs. unfold rdw in Hs at 2 4. rewrite Ho, Ho' in Hs. lia.
+    - xpt u; [congruence|]. intros Hu. exfalso.
+      pose proof (wropen_holdsX _ Hu) as Hxu. pose proof (wropen_holdsX _ Hw) as Hxt. rewrite <- Hp in Hxt.
+      destruct (excl_facts _ _ _ H1 Hxt u) as [_ E]. auto.
+    - discriminate.
+  Qed.
+End WKinds.
+
+Lemma WInv_init m th progs : WInv (gl (init m th progs)) (thr (init m th progs)).
+Proof.
+  assert (Q : forall u, pcof (map (fun p => Loc p Idle [] []) progs) u = Idle).
+  { intros u. unfold pcof, locof. rewrite nth_error_map. destruct (nth_error progs u); reflexivity. }
+  unfold init; cbn [gl thr]. constructor; cbn; auto; try discriminate.
+  - symmetry. apply sum_all_zero. intros u. unfold rdw. pose proof (Q u) as E. unfold pcof in E. rewrite E. reflexivity.
+  - intros u H. rewrite Q in H. discriminate.
+Qed.
+
+Ltac wside :=
+  gsimp; unfold after_drain, body_done; unfold cont;
+  first [ reflexivity | eassumption
+        | solve [left; split; reflexivity]
+        | solve [right; unfold shl; cbn [hand at_ holdsS nown]; nown_facts; lia]
+        | solve [repeat match goal with |- context [match ?x with _ => _ end] => destruct x end; reflexivity] ].
+Ltac solveW H1 HW Hl :=
+  first
+  [ solve [eapply (WK_same _ _ _ _ _ _ HW Hl); wside]
+  | solve [eapply (WK_rdb _ _ _ _ _ _ H1 HW Hl); wside]
+  | solve [eapply (WK_rde _ _ _ _ _ _ H1 HW Hl); wside]
+  | solve [eapply (WK_wrb _ _ _ _ _ _ H1 HW Hl); wside]
+  | solve [eapply (WK_wre _ _ _ _ _ _ H1 HW Hl); wside] ].
+
+Lemma WInv_step g ls t c l g' l' es :
+  Inv1 g ls -> WInv g ls -> nth_error ls t = Some l -> tstep t c g l = Some (g', l', es) -> WInv g' (upd ls t l').
+Proof.
+  intros H1 HW Hl Hs. destruct l as [pr p hd fu].
+  pose proof (I1H _ _ H1 t) as [HH1 HH2]. rewrite (locof_at _ _ _ Hl) in HH1, HH2. cbn [at_ hand] in HH1, HH2.
+  step_cases Hs.
+  all: try (specialize (HH2 eq_refl)).
+  all: solveW H1 HW Hl.
+Qed.
